@@ -82,13 +82,17 @@ CHECKS["C05"] = dict(
     design="3/C05")
 
 CHECKS["C17"] = dict(
-    technique="TLA+ reference scanner for free-form Fortran (FScan) as oracle over TLC-enumerated line sequences, "
-              "replayed through FileParser.parse_file; GenC01 programs rendered as Fortran replayed through finder.find",
-    text="Every sequence of line templates up to the bound (and simulated longer texts) that the reference scanner "
-         "accepts is parsed by the real FileParser as a .f90 file and compared on counted lines and directive extents; "
-         "the conditional-selection clause reuses C01's enumerated programs rendered as Fortran and compares per line; "
-         "gfortran -cpp -E validates the expected selection on a sample. No product-automaton fixpoint was built for the "
-         "Fortran cleaner (unlike C05), so this is exhaustive only up to the line bound.",
+    technique="TLA+ product (MC_FLex) of an implementation model of the C pass + fortran_cleaner with the reference "
+              "scanner FScan over character classes, checked by TLC to a fixpoint (any text length); one text family per "
+              "transition of that graph and TLC-enumerated line sequences replayed through FileParser.parse_file; GenC01 "
+              "programs rendered as Fortran replayed through finder.find",
+    text="TLC explores the product of the cleaner model and the reference scanner over 9 character classes to a fixpoint "
+         "(every text, any length, inside the stated alphabet) and checks that they agree at every line end; the model is "
+         "bound to the code by one family of texts per transition of the product graph (judged by FScan through "
+         "EvalFLex) and by every sequence of line templates up to the bound (and simulated longer texts), parsed by the "
+         "real FileParser as .f90 files and compared on counted lines and directive extents; the conditional-selection "
+         "clause reuses C01's enumerated programs rendered as Fortran (also as one continued statement interrupted by "
+         "the directives) and compares per line; gfortran -cpp -E validates the expected selection on a sample.",
     design="3/C17")
 
 CHECKS["C07"] = dict(
@@ -191,8 +195,11 @@ CHECKS["C12"] = dict(
          "loop / unknown target; each generated .cbi/config (three custom actions, defaults, override, implicit options, "
          "modes, passes, alias chains/cycles/dangling) is written as TOML and the real ArgumentParser processes the history "
          "in one process; passes, per-pass defines / include paths / include files and the reporting of alias and "
-         "unknown-compiler outcomes are compared with the specification. The built-in definition files are exercised only "
-         "through C11's compiler names, not interpreted by the specification. Sampled, not exhaustive.",
+         "unknown-compiler outcomes are compared with the specification; whole histories also run as one compilation "
+         "database through load_database + finder.find (probes by macro value). One small configuration space (profile h) "
+         "is explored exhaustively; the four built-in definition files are converted mechanically and interpreted by the "
+         "specification (EvalCompilerCfg) for every documented flag combination, alone and extended by a user "
+         "configuration (CompilerCfg.Extend). The large space is sampled (simulation).",
     design="3/C12")
 
 CHECKS["C14"] = dict(
@@ -202,7 +209,8 @@ CHECKS["C14"] = dict(
     text="TLC explores every platform order, file enumeration order and extract_platforms order of the abstract pipeline "
          "and checks that table, label decoding through the legend, divergence and coverage are the canonical function of "
          "the input (and exhibits a counterexample when labels follow set iteration order); the distinct schedules are "
-         "replayed into fresh interpreters running codebasin, cbi-tree, cbi-cov and -R duplicates on generated code bases; "
+         "replayed into fresh interpreters running codebasin (summary, clustering distance matrix), cbi-tree, cbi-cov and "
+         "-R duplicates on generated code bases (incl. hard links, cross-language symlinks, case-variant platform names); "
          "each run's parsed output must equal the specification's expectation as a mathematical object (ordering alone is "
          "never a violation). The hash-seed and enumeration-order spaces are sampled through the schedules, not enumerated.",
     design="3/C14")
